@@ -146,7 +146,11 @@ fn readiness(run: &mut Run) {
 }
 
 fn trace(run: &mut Run, proto: Protocol, target: IpAddr, signals: bool, rounds: usize, interface: Option<&str>) {
-    let ctx = format!("Tracer::run, production sockets, {proto:?} trace of {target}{}, {rounds} rounds, {}", interface.map_or(String::new(), |i| format!(" from interface {i}")), if signals { "a handled signal every 3ms to the tracing thread" } else { "quiet" });
+    trace_from(run, proto, target, signals, rounds, interface, None);
+}
+
+fn trace_from(run: &mut Run, proto: Protocol, target: IpAddr, signals: bool, rounds: usize, interface: Option<&str>, source: Option<IpAddr>) {
+    let ctx = format!("Tracer::run, production sockets, {proto:?} trace of {target}{}, {rounds} rounds, {}", interface.map_or(String::new(), |i| format!(" from interface {i}")) + &source.map_or(String::new(), |a| format!(" from source address {a}")), if signals { "a handled signal every 3ms to the tracing thread" } else { "quiet" });
     let pd = match proto {
         Protocol::Icmp => PortDirection::None,
         // a port nobody listens on: the kernel answers for the target (port unreachable / connection refused)
@@ -162,6 +166,7 @@ fn trace(run: &mut Run, proto: Protocol, target: IpAddr, signals: bool, rounds: 
         .read_timeout(Duration::from_millis(5))
         .max_ttl(4)
         .interface(interface)
+        .source_addr(source)
         .build();
     let tracer = match built {
         Ok(t) => t,
@@ -192,7 +197,7 @@ fn trace(run: &mut Run, proto: Protocol, target: IpAddr, signals: bool, rounds: 
             }
             // the source address discovered for a loopback target is that loopback address (same family, this host's)
             match tracer.source_addr() {
-                Some(src) if src == target => {}
+                Some(src) if src == target || source.is_some_and(|a| a == src) => {}
                 other => run.fail("c09-platform-run", format!("{ctx}: the source address of the trace is {other:?}, the route to {target} starts at {target}")),
             }
             // the target is one hop away
@@ -251,6 +256,21 @@ fn spawned(run: &mut Run, rounds: usize) {
     }
 }
 
+/// an accepted configuration must not crash the tracer: an IPv4-mapped IPv6 source address with an IPv6 target is
+/// accepted by `Builder::build` (both are IPv6 addresses); whatever the run then does — trace, or fail with an error —
+/// it must not panic (C16)
+fn mapped_source(run: &mut Run, target: IpAddr, rounds: usize) {
+    let source: IpAddr = "::ffff:127.0.0.1".parse().unwrap();
+    let built = Builder::new(target).source_addr(Some(source)).max_rounds(Some(rounds))
+        .min_round_duration(Duration::from_millis(40)).max_round_duration(Duration::from_millis(150))
+        .grace_duration(Duration::from_millis(10)).read_timeout(Duration::from_millis(5)).max_ttl(4).build();
+    let Ok(tracer) = built else { run.count("platform:mapped-source-rejected"); return };
+    match guarded(|| tracer.run()) {
+        Err(p) => run.fail("c09-platform-run", format!("Tracer::run, ICMP trace of {target} from source address {source} (accepted by Builder::build): panic {p}")),
+        Ok(r) => run.count(if r.is_ok() { "platform:mapped-source-ran" } else { "platform:mapped-source-error" }),
+    }
+}
+
 pub fn run(_rng: &mut Rng, thorough: bool, _corpus: &[String]) -> Run {
     let mut run = Run::new();
     run.op("conc noop".into(), "ok".into());
@@ -269,6 +289,12 @@ pub fn run(_rng: &mut Rng, thorough: bool, _corpus: &[String]) -> Run {
                 trace(&mut run, proto, target, true, rounds, None);
                 // the source address taken from a named interface (the loopback interface carries both families)
                 trace(&mut run, proto, target, false, rounds, Some("lo"));
+                // … and given outright: the loopback address itself, and for IPv6 also its IPv4-mapped spelling
+                // (`::ffff:127.0.0.1`: an IPv6 address for the builder, bindable on a dual-stack host)
+                trace_from(&mut run, proto, target, false, rounds, None, Some(target));
+                if target.is_ipv6() && proto == Protocol::Icmp {
+                    mapped_source(&mut run, target, rounds);
+                }
             }
         }
     }
